@@ -369,6 +369,22 @@ func C18RealCases(seed uint64, tier string) ([]*Case, map[string]int) {
 				}
 				pe := cloneProgram(p)
 				pe.Config.ExcludeFields = append(pe.Config.ExcludeFields, pos.msg[strings.LastIndex(pos.msg, ".")+1:]+"."+fname)
+				// the excluded field may carry any other option as well (in either key form): exclusion wins. One
+				// of the options injects a field next to it, so the text of the affected types is not compared.
+				if pos.oneof == "" {
+					px := cloneProgram(pe)
+					tk := pos.msg[strings.LastIndex(pos.msg, ".")+1:] + "." + fname
+					allKeys := []string{tk}
+					if pos.pathKeys != nil {
+						allKeys = append(allKeys, pos.pathKeys(fname)...)
+					}
+					for _, dk := range decoyOptions {
+						dk.apply(&px.Config, allKeys)
+					}
+					kinds["excluded+options"]++
+					cases = append(cases, &Case{Property: "C18", Clause: "excluded+options/" + k.name + "@" + pos.name, Seed: seed, Tier: tier, Program: px,
+						Ref: refRun(b), Run: runFrom(px.Config.Render(nil, nil)), Expect: Expect{Kind: "atomic", Roots: p.Config.Types, Restored: aff}})
+				}
 				kinds["excluded/type-key"]++
 				cases = append(cases, &Case{Property: "C18", Clause: "excluded/type-key/" + k.name + "@" + pos.name, Seed: seed, Tier: tier, Program: pe,
 					Ref: refRun(b), Run: runFrom(pe.Config.Render(nil, nil)), Expect: Expect{Kind: "atomic", Roots: p.Config.Types, Restored: restoredRoots}})
